@@ -123,7 +123,7 @@ def solve(
                 inst.append(s.arguments[0].number)
             else:
                 atoms.append(_sym(s))
-        shown = frozenset(str(s) for s in m.symbols(shown=True))
+        shown = frozenset(str(s) for s in m.symbols(terms=True))
         by[frozenset(inst)].append((frozenset(atoms), shown, _cost(m)))
         return True
 
@@ -152,7 +152,7 @@ def solve_instance(
         if len(models) >= MODEL_CAP:
             return False
         atoms = frozenset(_sym(s) for s in m.symbols(atoms=True))
-        shown = frozenset(str(s) for s in m.symbols(shown=True))
+        shown = frozenset(str(s) for s in m.symbols(terms=True))
         models.append((atoms, shown, _cost(m)))
         return True
 
@@ -192,7 +192,8 @@ def project(models: list, mode: str, preds: Optional[frozenset], costs: bool, mu
         if mode == "preds":
             proj = frozenset(a[2] for a in atoms if (a[0], a[1]) in preds)
         elif mode == "shown":
-            proj = shown
+            # what the #show statements display: shown terms plus atoms named by #show p/n signatures
+            proj = shown | frozenset(a[2] for a in atoms if (a[0], a[1]) in (preds or ()))
         elif mode == "sat":
             proj = frozenset()
         else:
